@@ -208,8 +208,10 @@ def monitorC13 (script : List Cmd) (iters : List Iter) : Option String :=
         | none, some b => if b ≤ laterStart then some b else none
         | none, none => none
       if kinds.head? != none && kinds.head? != some "started" then some s!"first-event-not-SearchStarted ch={ch}"
+      -- `resolved <ty> none <fullname> …` / `resolved <ty> some <sub> <fullname> …`
       else if evs.any (fun e => e.2.headD "" == "resolved" &&
-          !(evs.any fun f => f.2.headD "" == "found" && f.1 ≤ e.1 && f.2[2]? == e.2[3]?)) then
+          !(evs.any fun f => f.2.headD "" == "found" && f.1 ≤ e.1 &&
+              f.2[2]? == (if e.2[2]? == some "some" then e.2[4]? else e.2[3]?))) then
         some s!"ServiceResolved-without-ServiceFound ch={ch}"
       else if !cacheOnly && (kinds.filter (· == "stopped")).length > 1 then some s!"SearchStopped-twice ch={ch}"
       else if !cacheOnly && kinds.contains "stopped" && kinds.getLast? != some "stopped" then
